@@ -42,7 +42,7 @@ Abs(n) == IF n < 0 THEN -n ELSE n
 InRange(t, n) ==
   CASE t = "I" -> n >= MinI /\ n <= MaxI
     [] t = "L" -> n >= MinL /\ n <= MaxL
-    [] t = "S" -> Abs(n) <= MaxSExact
+    [] t = "S" -> n >= 0 - MaxSExact /\ n <= MaxSExact
     [] t = "D" -> n >= MinL /\ n <= MaxL
 
 \* "wider" numeric type: I < L < S < D
@@ -142,7 +142,7 @@ Arith(op, x, y) ==
       [] op = "-" -> FitBig(t, SafeSub(x.v, y.v))
       [] op = "*" -> FitBig(t, SafeMul(x.v, y.v))
       [] op = "/" -> IF y.v = 0 THEN DivZero
-                     ELSE IF x.v = MinL /\ y.v = -1 THEN Inexact
+                     ELSE IF x.v = MinL \/ y.v = MinL THEN Inexact
                      ELSE IF TruncMod(x.v, y.v) # 0 THEN Inexact
                      ELSE Fit(t, (Abs(x.v) \div Abs(y.v)) *
                                  (IF (x.v < 0) # (y.v < 0) THEN -1 ELSE 1))
@@ -170,8 +170,7 @@ Neg(x) ==
 Not(x) ==
   IF IsErr(x) THEN x
   ELSE IF IsStr(x) THEN TypeMismatch
-  ELSE IF x.v = MaxL THEN Val(x.t, MinL)
-  ELSE Fit(x.t, -x.v - 1)
+  ELSE Fit(x.t, (0 - 1) - x.v)
 
 \* truth value used by IF / WHILE / DO: zero is false
 Truth(x) == x.v # 0
